@@ -659,7 +659,6 @@ func statusFilterRule(w *World, r *Report, rule string, f *ssa.Function, apply *
 	_ = ev
 }
 
-
 // ruleC15Ownership: see R15.5.
 func ruleC15Ownership(w *World, r *Report) {
 	const P = "C15"
